@@ -48,6 +48,9 @@ type Task struct {
 type Case struct {
 	Key   string `json:"key"`
 	Tasks []Task `json:"tasks"`
+	// Gate, when present, is a completion order recorded by an earlier run: the tasks are released
+	// one after the other in that order (used to re-run a mismatch under the schedule that showed it).
+	Gate []int `json:"gate,omitempty"`
 }
 
 // Out is what the root Wait returned, classified against the tasks' own error values.
@@ -65,6 +68,7 @@ type Line struct {
 	Out     Out    `json:"out"`
 	Logged  []int  `json:"logged"`  // log tasks for which RecoverAndLog logged their panic value
 	BadLogs int    `json:"badlogs"` // log entries that belong to no panicking log task
+	Order   []int  `json:"order"`   // the order in which the tasks reached their end
 }
 
 // taskErr is the distinct error value task I returns (identity is what "unchanged" means).
@@ -152,17 +156,54 @@ func runCase(c Case, rng *rand.Rand) Line {
 	n := len(c.Tasks)
 	errs := make([]*taskErr, n+1)
 	yields := make([]int, n+1)
+	delays := make([]int, n+1)
 	kids := make([][]int, n+1)
 	for i := 1; i <= n; i++ {
 		errs[i] = &taskErr{i}
 		yields[i] = rng.Intn(4)
+		delays[i] = rng.Intn(3)
 		kids[c.Tasks[i-1].P] = append(kids[c.Tasks[i-1].P], i)
 	}
+	// gating: turn[i] is closed when task i may end; without a recorded order every task is free
+	turn := make([]chan struct{}, n+1)
+	nextOf := make([]int, n+1)
+	for i := 1; i <= n; i++ {
+		turn[i] = make(chan struct{})
+	}
+	gated := map[int]bool{}
+	for pos, i := range c.Gate {
+		if i < 1 || i > n || gated[i] {
+			vio.Fatal("bad gate %v", c.Gate)
+		}
+		gated[i] = true
+		if pos+1 < len(c.Gate) {
+			nextOf[i] = c.Gate[pos+1]
+		}
+	}
+	for i := 1; i <= n; i++ {
+		if !gated[i] || i == c.Gate[0] {
+			close(turn[i])
+		}
+	}
+	var mu sync.Mutex
+	order := []int{}
 	var logwg sync.WaitGroup
 	end := func(i int, inner error) error {
-		for k := 0; k < yields[i]; k++ {
-			runtime.Gosched()
+		if gated[i] {
+			<-turn[i]
+			time.Sleep(gateSettle) // let the predecessor's wrapper hand its result to the group
+			if nx := nextOf[i]; nx != 0 {
+				defer close(turn[nx]) // also runs while a panic unwinds
+			}
+		} else {
+			for k := 0; k < yields[i]; k++ {
+				runtime.Gosched()
+			}
+			time.Sleep(time.Duration(delays[i]) * 30 * time.Microsecond)
 		}
+		mu.Lock()
+		order = append(order, i)
+		mu.Unlock()
 		switch e := c.Tasks[i-1].E; e.K {
 		case "err":
 			return errs[i]
@@ -206,14 +247,23 @@ func runCase(c Case, rng *rand.Rand) Line {
 		}
 		errguard.Go(g, body(i, g))
 	}
+	base := runtime.NumGoroutine()
 	root := new(errgroup.Group)
 	for _, k := range kids[0] {
 		spawn(k, root)
 	}
 	err := root.Wait()
 	logwg.Wait()
+	// errgroup's deferred done() also runs while an unrecovered panic unwinds, so Wait can return
+	// a moment before the process dies: the case is over only when all its goroutines are gone
+	// (a dying process never gets there, and the death is attributed to this case).
+	for t0 := time.Now(); runtime.NumGoroutine() > base && time.Since(t0) < 2*time.Second; {
+		time.Sleep(20 * time.Microsecond)
+	}
 
-	l := Line{Key: c.Key, Tasks: c.Tasks, Out: Out{Mentions: []int{}, Is: []int{}}, Logged: []int{}}
+	mu.Lock()
+	l := Line{Key: c.Key, Tasks: c.Tasks, Out: Out{Mentions: []int{}, Is: []int{}}, Logged: []int{}, Order: append([]int{}, order...)}
+	mu.Unlock()
 	switch {
 	case err == nil:
 		l.Out.K = "nil"
@@ -278,7 +328,10 @@ func loadCases(file string) []Case {
 	return cs
 }
 
-const caseTimeout = 10 * time.Second
+const (
+	caseTimeout = 10 * time.Second
+	gateSettle  = 3 * time.Millisecond
+)
 
 func child(file string, from int, seed int64) {
 	logrus.SetOutput(io.Discard)
@@ -299,7 +352,7 @@ func child(file string, from int, seed int64) {
 	}
 }
 
-func parent(file, out string, seed int64) {
+func parent(file, out string, seed int64, maxDeaths int) {
 	cs := loadCases(file)
 	w, err := vio.NewWriter(out)
 	if err != nil {
@@ -328,7 +381,12 @@ func parent(file, out string, seed int64) {
 		}
 	}
 	next := 0
+	aborted := false
 	for next < len(cs) {
+		if crashes >= maxDeaths {
+			aborted = true // enough process deaths to decide; the remaining cases are not run
+			break
+		}
 		children++
 		if children > len(cs)+5 {
 			vio.Fatal("too many child restarts")
@@ -376,7 +434,7 @@ func parent(file, out string, seed int64) {
 			kind = "hang"
 		}
 		crashes++
-		record(Line{Key: cs[next].Key, Tasks: cs[next].Tasks, Logged: []int{},
+		record(Line{Key: cs[next].Key, Tasks: cs[next].Tasks, Logged: []int{}, Order: []int{},
 			Out: Out{K: kind, Mentions: []int{}, Is: []int{}, Msg: fmt.Sprintf("%v: %s", werr, firstLine(stderr.String()))}})
 		next++
 	}
@@ -386,6 +444,7 @@ func parent(file, out string, seed int64) {
 	rep.Extra["by_outcome"] = byOut
 	rep.Extra["child_processes"] = children
 	rep.Extra["process_deaths"] = crashes
+	rep.Extra["aborted_after_deaths"] = aborted
 	rep.Emit()
 }
 
@@ -398,10 +457,11 @@ func main() {
 	out := fs.String("out", "", "trace ndjson")
 	from := fs.Int("from", 0, "")
 	seed := fs.Int64("seed", 1, "")
+	maxDeaths := fs.Int("maxdeaths", 40, "stop after this many cases killed or stalled the child")
 	fs.Parse(os.Args[2:])
 	switch os.Args[1] {
 	case "run":
-		parent(*file, *out, *seed)
+		parent(*file, *out, *seed, *maxDeaths)
 	case "child":
 		child(*file, *from, *seed)
 	default:
